@@ -510,6 +510,10 @@ func (c *Client) monitor(ctx context.Context) {
 						// and try to republish the subscriptions.
 						// Restore the subscriptions where republishing fails.
 
+						// this action is also the first one after a
+						// BadSubscriptionIDInvalid error
+						c.setState(ctx, Reconnecting)
+
 						subIDs := c.SubscriptionIDs()
 
 						availableSeqs = map[uint32][]uint32{}
